@@ -1,73 +1,217 @@
 /-
-  C20 — `Modulus::modulus` returns the canonical residue (src/euclid.rs).
+  C20 — `Modulus::modulus` returns the canonical residue (src/euclid.rs), for every representable
+  operand without overflow.
 
   Integer models: Rust `i64/i32/u64/u32` are `Int` in the model, `%` is `smod`/`umod`
-  (truncated / Euclidean remainder, `panicInt` sentinel on a zero divisor).  The theorems below are
-  statements over UNBOUNDED `Int`: they say what `((x % d) + d) % d` computes mathematically.
-  In Rust the intermediate `(x % d) + d` is evaluated in the machine type and can overflow
-  (panic in debug / wrap in release); that is outside `*_modulus_canonical*` and is characterised
-  exactly by `i64_modulus_intermediate_overflow_iff` / `u64_modulus_intermediate_overflow_iff`,
-  with concrete witnesses.  (Additionally Rust's own `i64::MIN % -1` panics; the model returns 0.)
+  (truncated / Euclidean remainder, `panicInt` sentinel on a zero divisor).  The source computes
+  (signed)   `if d == -1 { return 0 }; let r = x % d; if sign(r) ≠ sign(d) { r + d } else { r }`
+  (unsigned) `x % d`.
+  `*_modulus_canonical_*` say that this is the canonical residue (over `Int`, every `x`, every
+  `d ≠ 0`).  `*_modulus_no_intermediate_overflow` say that for operands in the machine range every
+  value the code computes on the way (`x % d`, and `r + d` in the branch where it is evaluated) and
+  the result are in the machine range, and that the only overflowing `%` of the type
+  (`MIN % -1`) is never evaluated because of the `d == -1` early return.  `*_modulus_unfold` (by
+  `rfl`) pin the shape of the generated definition these intermediate values are read from.
 
   Strength: full(∀α) for the integer theorems (the carrier is not used by them), full(ℝ) for `f64`.
 -/
 import Statrs.Lemmas.FunctionLayer
+import Statrs.Lemmas.IntegerPaths
 import Statrs.Gen.R_euclid
 namespace Statrs.Props.C20
-open Statrs Statrs.Gen Statrs.Lemmas.FunctionLayer
+open Statrs Statrs.Gen Statrs.Lemmas.FunctionLayer Statrs.Lemmas.IntegerPaths
+
+/-- `v` is representable in `u32` (`InI64`, `InI32`, `InU64` are in `Lemmas/IntegerPaths`) -/
+def InU32 (v : Int) : Prop := 0 ≤ v ∧ v ≤ 4294967295
+
+/-- the sign test of the signed impls: `(r < 0 && d > 0) || (r > 0 && d < 0)` -/
+abbrev SignMismatch (r d : Int) : Prop := (r < 0 ∧ 0 < d) ∨ (0 < r ∧ d < 0)
+
+/-! ### the adjusted truncated remainder on `Int` -/
+
+private theorem tmod_adj_pos (x d : Int) (hd : 0 < d) :
+    0 ≤ (if SignMismatch (Int.tmod x d) d then Int.tmod x d + d else Int.tmod x d) ∧
+    (if SignMismatch (Int.tmod x d) d then Int.tmod x d + d else Int.tmod x d) < d ∧
+    d ∣ x - (if SignMismatch (Int.tmod x d) d then Int.tmod x d + d else Int.tmod x d) := by
+  have h1 := Int.lt_tmod_of_pos x hd
+  have h2 := Int.tmod_lt_of_pos x hd
+  have h3 : d ∣ x - Int.tmod x d := Int.dvd_self_sub_tmod
+  unfold SignMismatch
+  split_ifs with hc
+  · refine ⟨by omega, by omega, ?_⟩
+    have e : x - (Int.tmod x d + d) = (x - Int.tmod x d) - d := by ring
+    rw [e]; exact Int.dvd_sub h3 (Int.dvd_refl d)
+  · exact ⟨by omega, h2, h3⟩
+
+private theorem tmod_adj_neg (x d : Int) (hd : d < 0) :
+    d < (if SignMismatch (Int.tmod x d) d then Int.tmod x d + d else Int.tmod x d) ∧
+    (if SignMismatch (Int.tmod x d) d then Int.tmod x d + d else Int.tmod x d) ≤ 0 ∧
+    d ∣ x - (if SignMismatch (Int.tmod x d) d then Int.tmod x d + d else Int.tmod x d) := by
+  have hd' : 0 < -d := by omega
+  have h1 : d < Int.tmod x d := by
+    have := Int.lt_tmod_of_pos x hd'
+    rw [Int.tmod_neg] at this; omega
+  have h2 : Int.tmod x d < -d := by rw [← Int.tmod_neg]; exact Int.tmod_lt_of_pos x hd'
+  have h3 : d ∣ x - Int.tmod x d := Int.dvd_self_sub_tmod
+  unfold SignMismatch
+  split_ifs with hc
+  · refine ⟨by omega, by omega, ?_⟩
+    have e : x - (Int.tmod x d + d) = (x - Int.tmod x d) - d := by ring
+    rw [e]; exact Int.dvd_sub h3 (Int.dvd_refl d)
+  · exact ⟨h1, by omega, h3⟩
+
+/-- `|x tmod d| < |d|` and, in the branch where it is evaluated, `(x tmod d) + d` lies strictly
+    between `0` and `d`; so both are in every two's-complement range `[-(hi+1), hi]` that
+    contains `d` (whatever `x` is). -/
+private theorem tmod_intermediates_in (x d lo hi : Int) (hd0 : d ≠ 0) (hsym : lo = -(hi + 1))
+    (hd : lo ≤ d ∧ d ≤ hi) :
+    (lo ≤ Int.tmod x d ∧ Int.tmod x d ≤ hi) ∧
+    (SignMismatch (Int.tmod x d) d → lo ≤ Int.tmod x d + d ∧ Int.tmod x d + d ≤ hi) := by
+  unfold SignMismatch
+  rcases lt_or_gt_of_ne hd0 with hneg | hpos
+  · have hd' : 0 < -d := by omega
+    have h1 : d < Int.tmod x d := by
+      have := Int.lt_tmod_of_pos x hd'
+      rw [Int.tmod_neg] at this; omega
+    have h2 : Int.tmod x d < -d := by rw [← Int.tmod_neg]; exact Int.tmod_lt_of_pos x hd'
+    exact ⟨⟨by omega, by omega⟩, fun hc => ⟨by omega, by omega⟩⟩
+  · have h1 := Int.lt_tmod_of_pos x hpos
+    have h2 := Int.tmod_lt_of_pos x hpos
+    exact ⟨⟨by omega, by omega⟩, fun hc => ⟨by omega, by omega⟩⟩
 
 section int
 variable {α : Type} [Add α] [Sub α] [Mul α] [Div α] [Neg α] [LT α] [LE α] [BEq α]
   [DecidableLT α] [DecidableLE α] [OfScientific α] [Inhabited α] [RFun α]
 
-/-- i64, `d > 0`: `r = x.modulus(d)` is the residue in `[0, d)` with `d ∣ x - r`.
-    Unbounded-`Int` statement: overflow of the intermediate `(x % d) + d` in `i64` is NOT covered
-    (see `i64_modulus_intermediate_overflow_iff`). -/
+/-! ### i64 -/
+
+/-- shape of the generated `i64.modulus` (the values named in the no-overflow theorem are exactly
+    the ones this definition computes) -/
+theorem i64_modulus_unfold (x d : Int) :
+    i64.modulus (α := α) x d =
+      if d = -1 then 0 else if SignMismatch (smod x d) d then smod x d + d else smod x d := rfl
+
+/-- i64, `d > 0`: `r = x.modulus(d)` is the residue in `[0, d)` with `d ∣ x - r`, for every `x`. -/
 theorem i64_modulus_canonical_pos (x d : Int) (hd : 0 < d) :
     0 ≤ i64.modulus (α := α) x d ∧ i64.modulus (α := α) x d < d ∧ d ∣ x - i64.modulus (α := α) x d := by
   have hd0 : d ≠ 0 := by omega
-  simp only [i64.modulus, smod, if_neg hd0]
-  exact tmod_canon_pos x d hd
+  have hd1 : d ≠ -1 := by omega
+  simp only [i64_modulus_unfold, smod, if_neg hd0, if_neg hd1]
+  exact tmod_adj_pos x d hd
 
-/-- i64, `d < 0`: the residue has the sign of `d`: `d < r ≤ 0` and `d ∣ x - r`
-    (unbounded `Int`; intermediate overflow not covered). -/
+/-- i64, `d < 0`: the residue has the sign of `d`: `d < r ≤ 0` and `d ∣ x - r`, for every `x`
+    (including `d = -1`, where the early return gives `0`). -/
 theorem i64_modulus_canonical_neg (x d : Int) (hd : d < 0) :
     d < i64.modulus (α := α) x d ∧ i64.modulus (α := α) x d ≤ 0 ∧ d ∣ x - i64.modulus (α := α) x d := by
   have hd0 : d ≠ 0 := by omega
-  simp only [i64.modulus, smod, if_neg hd0]
-  exact tmod_canon_neg x d hd
+  by_cases hd1 : d = -1
+  · subst hd1
+    simp [i64_modulus_unfold]
+  · simp only [i64_modulus_unfold, smod, if_neg hd0, if_neg hd1]
+    exact tmod_adj_neg x d hd
 
 /-- i64, `d = 0`: the model reports Rust's division-by-zero panic (sentinel). -/
 theorem i64_modulus_zero_divisor (x : Int) : i64.modulus (α := α) x 0 = panicInt := by
   simp [i64.modulus, smod]
 
-/-- i32: same body as i64. -/
+/-- i64, `d = -1`: early return `0` for every `x`; no `%` is evaluated, in particular not the
+    overflowing `i64::MIN % -1`. -/
+theorem i64_modulus_neg_one (x : Int) : i64.modulus (α := α) x (-1) = 0 := by
+  simp [i64_modulus_unfold]
+
+/-- NO OVERFLOW (i64): for `d ≠ 0` in range (and ANY `x`, in particular every `x` in range)
+    * where `%` is evaluated (`d ≠ -1`) it is not the overflowing `MIN % -1`, and `r = x % d` is in range;
+    * where `r + d` is evaluated (sign mismatch) it is in range;
+    * the result is in range. -/
+theorem i64_modulus_no_intermediate_overflow (x d : Int) (hd : InI64 d) (hd0 : d ≠ 0) :
+    (d ≠ -1 → ¬ (x = i64Min ∧ d = -1) ∧ InI64 (smod x d) ∧
+      (SignMismatch (smod x d) d → InI64 (smod x d + d))) ∧
+    InI64 (i64.modulus (α := α) x d) := by
+  have hr := tmod_intermediates_in x d i64Min i64Max hd0 (by decide) hd
+  have hres : InI64 (i64.modulus (α := α) x d) := by
+    rw [i64_modulus_unfold]
+    split_ifs with h1 hc
+    · exact ⟨by decide, by decide⟩
+    · simp only [smod, if_neg hd0] at hc ⊢; exact hr.2 hc
+    · simp only [smod, if_neg hd0]; exact hr.1
+  refine ⟨fun h1 => ⟨fun h => h1 h.2, ?_, ?_⟩, hres⟩
+  · simp only [smod, if_neg hd0]; exact hr.1
+  · simp only [smod, if_neg hd0]; exact hr.2
+
+/-! ### i32 (same body as i64) -/
+
+theorem i32_modulus_unfold (x d : Int) :
+    i32.modulus (α := α) x d =
+      if d = -1 then 0 else if SignMismatch (smod x d) d then smod x d + d else smod x d := rfl
+
 theorem i32_modulus_canonical_pos (x d : Int) (hd : 0 < d) :
-    0 ≤ i32.modulus (α := α) x d ∧ i32.modulus (α := α) x d < d ∧ d ∣ x - i32.modulus (α := α) x d := by
-  have hd0 : d ≠ 0 := by omega
-  simp only [i32.modulus, smod, if_neg hd0]
-  exact tmod_canon_pos x d hd
+    0 ≤ i32.modulus (α := α) x d ∧ i32.modulus (α := α) x d < d ∧ d ∣ x - i32.modulus (α := α) x d :=
+  i64_modulus_canonical_pos (α := α) x d hd
 
 theorem i32_modulus_canonical_neg (x d : Int) (hd : d < 0) :
-    d < i32.modulus (α := α) x d ∧ i32.modulus (α := α) x d ≤ 0 ∧ d ∣ x - i32.modulus (α := α) x d := by
-  have hd0 : d ≠ 0 := by omega
-  simp only [i32.modulus, smod, if_neg hd0]
-  exact tmod_canon_neg x d hd
+    d < i32.modulus (α := α) x d ∧ i32.modulus (α := α) x d ≤ 0 ∧ d ∣ x - i32.modulus (α := α) x d :=
+  i64_modulus_canonical_neg (α := α) x d hd
 
-/-- u64 (`d > 0` is the only non-panicking case): residue in `[0, d)`, `d ∣ x - r`
-    (unbounded `Int`; overflow of `(x % d) + d` in `u64` not covered, see
-    `u64_modulus_intermediate_overflow_iff`). -/
+theorem i32_modulus_zero_divisor (x : Int) : i32.modulus (α := α) x 0 = panicInt :=
+  i64_modulus_zero_divisor (α := α) x
+
+theorem i32_modulus_neg_one (x : Int) : i32.modulus (α := α) x (-1) = 0 :=
+  i64_modulus_neg_one (α := α) x
+
+/-- NO OVERFLOW (i32): as `i64_modulus_no_intermediate_overflow`, in the `i32` range. -/
+theorem i32_modulus_no_intermediate_overflow (x d : Int) (hd : InI32 d) (hd0 : d ≠ 0) :
+    (d ≠ -1 → ¬ (x = i32Min ∧ d = -1) ∧ InI32 (smod x d) ∧
+      (SignMismatch (smod x d) d → InI32 (smod x d + d))) ∧
+    InI32 (i32.modulus (α := α) x d) := by
+  have hr := tmod_intermediates_in x d i32Min i32Max hd0 (by decide) hd
+  have hres : InI32 (i32.modulus (α := α) x d) := by
+    rw [i32_modulus_unfold]
+    split_ifs with h1 hc
+    · exact ⟨by decide, by decide⟩
+    · simp only [smod, if_neg hd0] at hc ⊢; exact hr.2 hc
+    · simp only [smod, if_neg hd0]; exact hr.1
+  refine ⟨fun h1 => ⟨fun h => h1 h.2, ?_, ?_⟩, hres⟩
+  · simp only [smod, if_neg hd0]; exact hr.1
+  · simp only [smod, if_neg hd0]; exact hr.2
+
+/-! ### u64 / u32 -/
+
+/-- shape of the generated unsigned impls: a single `%`, no addition at all -/
+theorem u64_modulus_unfold (x d : Int) : u64.modulus (α := α) x d = umod x d := rfl
+theorem u32_modulus_unfold (x d : Int) : u32.modulus (α := α) x d = umod x d := rfl
+
+/-- u64 (`d > 0` is the only non-panicking case): residue in `[0, d)`, `d ∣ x - r`. -/
 theorem u64_modulus_canonical (x d : Int) (hd : 0 < d) :
     0 ≤ u64.modulus (α := α) x d ∧ u64.modulus (α := α) x d < d ∧ d ∣ x - u64.modulus (α := α) x d := by
   have hd0 : d ≠ 0 := by omega
   simp only [u64.modulus, umod, if_neg hd0]
-  exact emod_canon_pos x d hd
+  exact ⟨Int.emod_nonneg _ hd0, Int.emod_lt_of_pos _ hd, Int.dvd_self_sub_emod⟩
 
 theorem u32_modulus_canonical (x d : Int) (hd : 0 < d) :
-    0 ≤ u32.modulus (α := α) x d ∧ u32.modulus (α := α) x d < d ∧ d ∣ x - u32.modulus (α := α) x d := by
-  have hd0 : d ≠ 0 := by omega
-  simp only [u32.modulus, umod, if_neg hd0]
-  exact emod_canon_pos x d hd
+    0 ≤ u32.modulus (α := α) x d ∧ u32.modulus (α := α) x d < d ∧ d ∣ x - u32.modulus (α := α) x d :=
+  u64_modulus_canonical (α := α) x d hd
+
+theorem u64_modulus_zero_divisor (x : Int) : u64.modulus (α := α) x 0 = panicInt := by
+  simp [u64.modulus, umod]
+
+theorem u32_modulus_zero_divisor (x : Int) : u32.modulus (α := α) x 0 = panicInt := by
+  simp [u32.modulus, umod]
+
+/-- NO OVERFLOW (u64): the only value computed is `x % d`, which is the result and lies in
+    `[0, d) ⊆ [0, u64::MAX]` (unsigned `%` cannot overflow; no `+ d` is evaluated any more). -/
+theorem u64_modulus_no_intermediate_overflow (x d : Int) (hd : InU64 d) (hd0 : d ≠ 0) :
+    u64.modulus (α := α) x d = umod x d ∧ InU64 (umod x d) ∧ InU64 (u64.modulus (α := α) x d) := by
+  have hpos : 0 < d := by have := hd.1; omega
+  obtain ⟨h0, h1, _⟩ := u64_modulus_canonical (α := α) x d hpos
+  have : InU64 (u64.modulus (α := α) x d) := ⟨h0, by have := hd.2; omega⟩
+  exact ⟨rfl, this, this⟩
+
+theorem u32_modulus_no_intermediate_overflow (x d : Int) (hd : InU32 d) (hd0 : d ≠ 0) :
+    u32.modulus (α := α) x d = umod x d ∧ InU32 (umod x d) ∧ InU32 (u32.modulus (α := α) x d) := by
+  have hpos : 0 < d := by have := hd.1; omega
+  obtain ⟨h0, h1, _⟩ := u32_modulus_canonical (α := α) x d hpos
+  have : InU32 (u32.modulus (α := α) x d) := ⟨h0, by have := hd.2; omega⟩
+  exact ⟨rfl, this, this⟩
 
 /-- the residue is unique, so `modulus` agrees with Lean's Euclidean `%` for `d > 0` -/
 theorem i64_modulus_eq_emod (x d : Int) (hd : 0 < d) : i64.modulus (α := α) x d = x % d := by
@@ -81,103 +225,92 @@ example : ∃ x d : Int, d < 0 ∧ i64.modulus (α := α) x d = -1 := ⟨4, -5, 
 
 end int
 
-/-! ### overflow of the intermediate `(x % d) + d` in the machine type -/
-
-/-- The intermediate value `(x % d) + d` that Rust evaluates in `i64` (model: `smod x d + d`). -/
-def i64Intermediate (x d : Int) : Int := smod x d + d
-
-/-- EXACT overflow set: for in-range operands and `d ≠ 0`, the intermediate leaves the `i64` range
-    iff `x` and `d` have the same sign, `|x| < |d|`, and `x + d` itself overflows. -/
-theorem i64_modulus_intermediate_overflow_iff (x d : Int)
-    (hx : i64Min ≤ x ∧ x ≤ i64Max) (hd : i64Min ≤ d ∧ d ≤ i64Max) (hd0 : d ≠ 0) :
-    ¬ (i64Min ≤ i64Intermediate x d ∧ i64Intermediate x d ≤ i64Max) ↔
-      ((0 ≤ x ∧ x < d ∧ i64Max < x + d) ∨ (d < x ∧ x ≤ 0 ∧ x + d < i64Min)) := by
-  simp only [i64Intermediate, smod, if_neg hd0]
-  simp only [i64Min, i64Max] at *
-  rcases lt_or_gt_of_ne hd0 with hneg | hpos
-  · have h := tmod_add_lt_iff x d (-9223372036854775808) hneg hx.1 hd.1
-    have hup : Int.tmod x d + d ≤ 9223372036854775807 := by
-      have : Int.tmod x d < -d := by
-        rw [← Int.tmod_neg]; exact Int.tmod_lt_of_pos x (by omega)
-      omega
-    constructor
-    · intro h'
-      right; apply h.mp; by_contra hc; exact h' ⟨by omega, hup⟩
-    · rintro (h' | h') h''
-      · omega
-      · have := h.mpr h'; omega
-  · have h := tmod_add_gt_iff x d 9223372036854775807 hpos hx.2 hd.2
-    have hlo : -9223372036854775808 ≤ Int.tmod x d + d := by
-      have := Int.lt_tmod_of_pos x hpos
-      omega
-    constructor
-    · intro h'
-      left; apply h.mp; by_contra hc; exact h' ⟨hlo, by omega⟩
-    · rintro (h' | h') h''
-      · have := h.mpr h'; omega
-      · omega
-
-/-- The overflow set is non-empty: `(i64::MAX - 1).modulus(i64::MAX)` needs `2·i64::MAX - 1`
-    as intermediate (Rust: panic `attempt to add with overflow` in debug, wrapped result in release),
-    although the mathematical answer `i64::MAX - 1` is representable. -/
-theorem i64_modulus_intermediate_overflow_witness :
-    i64Min ≤ i64Max - 1 ∧ i64Max - 1 ≤ i64Max ∧ i64Max ≠ 0 ∧
-    i64Max < i64Intermediate (i64Max - 1) i64Max ∧
-    i64.modulus (α := ℝ) (i64Max - 1) i64Max = i64Max - 1 := by
-  refine ⟨by decide, by decide, by decide, by decide, by decide⟩
-
-/-- negative-side witness: `(i64::MIN + 1).modulus(i64::MIN)` underflows the intermediate. -/
-theorem i64_modulus_intermediate_underflow_witness :
-    i64Intermediate (i64Min + 1) i64Min < i64Min ∧
-    i64.modulus (α := ℝ) (i64Min + 1) i64Min = i64Min + 1 := by
+/-- the operands on which the OLD formula `((x % d) + d) % d` overflowed are now computed
+    without leaving the range, with the canonical result -/
+example : i64.modulus (α := ℝ) (i64Max - 1) i64Max = i64Max - 1 ∧
+    ¬ SignMismatch (smod (i64Max - 1) i64Max) i64Max := by
   refine ⟨by decide, by decide⟩
-
-/-- Model limit (reported): Rust's `i64::MIN % -1` itself panics ("attempt to calculate the remainder
-    with overflow"), so `i64::MIN.modulus(-1)` panics in Rust, while the model's `smod` is plain
-    `Int.tmod` and yields the mathematically correct residue 0.  Outside every theorem above only in
-    the sense that Rust does not return a value there. -/
-theorem i64_modulus_min_neg_one_model : i64.modulus (α := ℝ) i64Min (-1) = 0 := by decide
-
-/-- `u64`: the intermediate `(x % d) + d`. -/
-def u64Intermediate (x d : Int) : Int := umod x d + d
-
-theorem u64_modulus_intermediate_overflow_iff (x d : Int)
-    (hx : 0 ≤ x ∧ x ≤ u64Max) (hd : 0 < d ∧ d ≤ u64Max) :
-    u64Max < u64Intermediate x d ↔ (x < d ∧ u64Max < x + d) := by
-  have hd0 : d ≠ 0 := by omega
-  simp only [u64Intermediate, umod, if_neg hd0]
-  exact emod_add_gt_iff x d u64Max hd.1 hx.1 hx.2 hd.2
-
-theorem u64_modulus_intermediate_overflow_witness :
-    u64Max < u64Intermediate (u64Max - 1) u64Max ∧
-    u64.modulus (α := ℝ) (u64Max - 1) u64Max = u64Max - 1 := by
+example : i64.modulus (α := ℝ) (i64Min + 1) i64Min = i64Min + 1 ∧
+    ¬ SignMismatch (smod (i64Min + 1) i64Min) i64Min := by
   refine ⟨by decide, by decide⟩
+example : i64.modulus (α := ℝ) i64Min (-1) = 0 := i64_modulus_neg_one (α := ℝ) _
+example : u64.modulus (α := ℝ) (u64Max - 1) u64Max = u64Max - 1 := by decide
+/-- non-vacuity of the no-overflow hypotheses -/
+example : InI64 i64Min ∧ i64Min ≠ 0 ∧ InI32 i32Min ∧ InU64 u64Max := by
+  refine ⟨⟨by decide, by decide⟩, by decide, ⟨by decide, by decide⟩, ⟨by decide, by decide⟩⟩
 
-/-! ### `f64` over ℝ (`%` = truncated remainder `RFun.fmod`) -/
+
+/-! ### `f64` over ℝ (`%` = truncated remainder `RFun.fmod`, exact over ℝ)
+
+  Source: `let r = x % d; if sign(r) ≠ sign(d) { let s = r + d; if s == d { 0.0 } else { s } } else { r }`.
+  The inner guard `s == d` only exists for floating-point rounding (`r + d` can round up to `d` when
+  `r` is tiny); over ℝ it can never fire in that branch because `r ≠ 0` there
+  (`f64_modulus_guard_dead`), so over ℝ the function is the sign-adjusted remainder
+  (`f64_modulus_real`). -/
+
+/-- over ℝ, in the sign-mismatch branch `s = r + d` is never equal to `d` -/
+theorem f64_modulus_guard_dead (x d : ℝ)
+    (hc : (RFun.fmod x d < 0 ∧ 0 < d) ∨ (0 < RFun.fmod x d ∧ d < 0)) :
+    ¬ ((RFun.fmod x d + d == d) = true) := by
+  rw [real_beq]
+  intro h
+  rcases hc with ⟨h1, _⟩ | ⟨h1, _⟩ <;> linarith
+
+/-- closed form over ℝ: the sign-adjusted truncated remainder -/
+theorem f64_modulus_real (x d : ℝ) :
+    f64.modulus x d =
+      if (RFun.fmod x d < 0 ∧ 0 < d) ∨ (0 < RFun.fmod x d ∧ d < 0) then RFun.fmod x d + d
+      else RFun.fmod x d := by
+  unfold f64.modulus
+  have z : (0.0 : ℝ) = 0 := by norm_num
+  simp only [z]
+  split_ifs with hc hs
+  · exact absurd hs (f64_modulus_guard_dead x d hc)
+  · rfl
+  · rfl
 
 /-- f64 over ℝ, `d > 0`: `r = x.modulus(d)` lies in `[0, d)` and `x - r` is an integer multiple of `d`. -/
 theorem f64_modulus_canonical_pos (x d : ℝ) (hd : 0 < d) :
     0 ≤ f64.modulus x d ∧ f64.modulus x d < d ∧ ∃ k : ℤ, x - f64.modulus x d = d * k := by
-  unfold f64.modulus
+  rw [f64_modulus_real]
   obtain ⟨h1, h2⟩ := fmod_bounds x d hd
-  obtain ⟨h3, h4⟩ := fmod_floor_pos (RFun.fmod x d + d) d hd (by linarith)
   obtain ⟨k1, e1⟩ := fmod_sub_int x d
-  obtain ⟨k2, e2⟩ := fmod_sub_int (RFun.fmod x d + d) d
-  refine ⟨h3, h4, k1 + k2 - 1, ?_⟩
-  push_cast
-  linarith
+  split_ifs with hc
+  · have hr : RFun.fmod x d < 0 := by
+      rcases hc with ⟨h, _⟩ | ⟨_, h⟩
+      · exact h
+      · linarith
+    refine ⟨by linarith, by linarith, k1 - 1, ?_⟩
+    push_cast; linarith
+  · have hr : 0 ≤ RFun.fmod x d := by
+      by_contra h
+      exact hc (Or.inl ⟨not_le.mp h, hd⟩)
+    exact ⟨hr, h2, k1, e1⟩
 
 /-- f64 over ℝ, `d < 0`: `d < r ≤ 0` and `x - r` is an integer multiple of `d`. -/
 theorem f64_modulus_canonical_neg (x d : ℝ) (hd : d < 0) :
     d < f64.modulus x d ∧ f64.modulus x d ≤ 0 ∧ ∃ k : ℤ, x - f64.modulus x d = d * k := by
-  unfold f64.modulus
+  rw [f64_modulus_real]
   obtain ⟨h1, h2⟩ := fmod_bounds_neg x d hd
-  obtain ⟨h3, h4⟩ := fmod_floor_neg (RFun.fmod x d + d) d hd (by linarith)
   obtain ⟨k1, e1⟩ := fmod_sub_int x d
-  obtain ⟨k2, e2⟩ := fmod_sub_int (RFun.fmod x d + d) d
-  refine ⟨h3, h4, k1 + k2 - 1, ?_⟩
-  push_cast
-  linarith
+  split_ifs with hc
+  · have hr : 0 < RFun.fmod x d := by
+      rcases hc with ⟨_, h⟩ | ⟨h, _⟩
+      · linarith
+      · exact h
+    refine ⟨by linarith, by linarith, k1 - 1, ?_⟩
+    push_cast; linarith
+  · have hr : RFun.fmod x d ≤ 0 := by
+      by_contra h
+      exact hc (Or.inr ⟨not_le.mp h, hd⟩)
+    exact ⟨h1, hr, k1, e1⟩
+
+/-- consequently the result is never the excluded endpoint `d` (the half-open range the source
+    comment asks for), for either sign of `d` -/
+theorem f64_modulus_ne_divisor (x d : ℝ) (hd : d ≠ 0) : f64.modulus x d ≠ d := by
+  rcases lt_or_gt_of_ne hd with h | h
+  · exact ne_of_gt (f64_modulus_canonical_neg x d h).1
+  · exact ne_of_lt (f64_modulus_canonical_pos x d h).2.1
 
 example : 0 ≤ f64.modulus (-4 : ℝ) 5 ∧ f64.modulus (-4 : ℝ) 5 < 5 :=
   ⟨(f64_modulus_canonical_pos (-4) 5 (by norm_num)).1, (f64_modulus_canonical_pos (-4) 5 (by norm_num)).2.1⟩
